@@ -63,6 +63,19 @@ sqlite_dialect.sets("reserved_keywords").update(RESERVED_KEYWORDS)
 sqlite_dialect.sets("unreserved_keywords").clear()
 sqlite_dialect.sets("unreserved_keywords").update(UNRESERVED_KEYWORDS)
 
+# Keywords which grammar elements of this dialect (including inherited
+# ones) refer to, but which are in neither keyword set.
+sqlite_dialect.sets("unreserved_keywords").update(
+    [
+        "BINDING",
+        "DATA",
+        "MATCHED",
+        "PARTIAL",
+        "SCHEMA",
+        "SIMPLE",
+    ]
+)
+
 sqlite_dialect.patch_lexer_matchers(
     [
         # SQLite allows block comments to be terminated by end of input
